@@ -25,8 +25,8 @@ func runC03(res *hx.Result, rng *hx.Rng, tier string, outdir string) {
 	if tier == "thorough" {
 		n, opts.MaxDepth = 25000, 6
 	}
-	cfg, sw := wireSwitches(res)
-	cs := hx.NewCases(outdir, "C03", "From QV Require Import Wire SigSimple C03Run.", "mismatches cfg cases", res, "cases", "c03case")
+	cfg, sw := wireSwitches(res, "value_reader_no_len", "refl_drop8")
+	cs := hx.NewCases(outdir, "C03", "From QV Require Import Wire ParseOpt C03Run.", "mismatches cfg cases", res, "cases", "c03case")
 	cs.Extra = append(cs.Extra, cfg)
 	for i := 0; i < n; i++ {
 		t := wg.GenTy(rng, opts, 0)
@@ -73,14 +73,13 @@ func runC03(res *hx.Result, rng *hx.Rng, tier string, outdir string) {
 			}
 		}
 		trail := rng.Bytes(rng.Pick(0, 0, 1, 3, 7))
-		input := append(append([]byte(nil), enc...), trail...)
+		// the decoders are fed the documented bytes (what a correct peer sends); bytes an encoder got
+		// wrong are not fed back: misaligned counts are hostile input, which is C07's subject
+		input := append(append([]byte(nil), doc...), trail...)
+		docInput := input
 		rd := sigRead(sig, input)
 		// oracle: the signature-driven reader accepts exactly the documented bytes and returns them unchanged
-		docInput := append(append([]byte(nil), doc...), trail...)
 		rdDoc := rd
-		if !bytes.Equal(doc, enc) {
-			rdDoc = sigRead(sig, docInput)
-		}
 		if !t.HasScalar("X") && (rdDoc.class != ocOK || !bytes.Equal(rdDoc.data, doc) || rdDoc.left != len(trail)) {
 			detail := fmt.Sprintf("signature %q: reader on %x + %d trailing bytes: class %d, returned %x, %d left", sig, doc, len(trail), rdDoc.class, rdDoc.data, rdDoc.left)
 			if t.HasScalar("m") && sw["value_reader_no_len"] {
@@ -94,9 +93,7 @@ func runC03(res *hx.Result, rng *hx.Rng, tier string, outdir string) {
 			de = reflDec(rt, t, input)
 			// oracle: the reflection decoder recovers the value from the documented bytes
 			dd := de
-			if !bytes.Equal(doc, enc) {
-				dd = reflDec(rt, t, docInput)
-			}
+			_ = docInput
 			if dd.class != ocOK || dd.val.Canon() != v.Canon() || dd.left != len(trail) {
 				got := "<none>"
 				if dd.val != nil {
